@@ -642,3 +642,6 @@ PROPS["C19"]["proofs"] = PROPS["C19"]["proofs"] + ["Bmc.Proofs.EndToEnd.Isolatio
 PROPS["C19"]["claim"] += (" generated_SendCommand_isolation (Proofs/EndToEnd/IsolationC19.lean): the isolation theorem instantiated with both SendCommand entry points AS TRANSLATED ON THIS RUN — the translation "
                           "succeeds only if every variable they touch is a parameter, a local or a field of the receiver (a written package-level variable is a give-up), so they ARE functions of the connection's own "
                           "state and every interleaving gives each connection its solo results.")
+PROPS["C13"]["proofs"] = PROPS["C13"]["proofs"] + ["Bmc.Proofs.EndToEnd.ContextC13"]
+PROPS["C13"]["claim"] += (" About the retry loops AS TRANSLATED ON THIS RUN (Proofs/EndToEnd/ContextC13.lean; the part a function of states can say): at most one datagram per outcome the caller's context allows, "
+                          "nothing after the context has ended in the back-off, and a call entered with an ended context serialises one packet, fails in the transport and returns without a retry.")
